@@ -105,7 +105,7 @@ func (b *backend) pathTrimUpdate() framework.OperationFunc {
 			return nil, err
 		}
 
-		if err := logical.EndTxStorage(ctx, req); err != nil {
+		if err := b.endPolicyTxStorage(ctx, req, name); err != nil {
 			return nil, err
 		}
 
